@@ -318,6 +318,27 @@ func judge(s *Scenario, o *Obs) *verdict {
 		senders := s.gorsOf(ch, "send")
 		receivers := s.gorsOf(ch, "recv")
 		total := len(senders) * cs.N
+		K := cs.MarkEvery
+		nMarks := 0
+		markSid := map[string]int{} // marker kind -> sender id
+		markKind := map[int]string{}
+		if K > 0 {
+			nMarks = cs.N / K
+			total += len(senders) * nMarks
+			for _, si := range senders {
+				markSid[s.Gors[si].Mark] = s.Gors[si].ID
+				markKind[s.Gors[si].ID] = s.Gors[si].Mark
+			}
+		}
+		// position of a message / of the j-th marker in its sender's sequence
+		msgPos := func(seq int) int {
+			if K > 0 {
+				return seq + seq/K
+			}
+			return seq
+		}
+		markPos := func(j int) int { return (j+1)*K + j }
+		markRecv := map[int]int{}
 		count := map[msgKey]int{}
 		invented := 0
 		var inventedEx any
@@ -331,7 +352,42 @@ func judge(s *Scenario, o *Obs) *verdict {
 			last := map[int]int{}
 			lastSid := 0
 			seenSid := map[int]bool{}
+			nextMark := map[int]int{}
 			for _, val := range recvGot[ri+1] {
+				if mk := markerKind(val); K > 0 && mk != "" {
+					sid, known := markSid[mk]
+					if !known {
+						invented++
+						if inventedEx == nil {
+							inventedEx = val
+						}
+						continue
+					}
+					received++
+					markRecv[sid]++
+					v.Events["markers_received"]++
+					// the earliest marker of that sender that can still follow what this receiver already has
+					j := nextMark[sid]
+					if p, ok := last[sid]; ok {
+						for j < nMarks && markPos(j) <= p {
+							j++
+						}
+					}
+					if j >= nMarks {
+						if orderBad == "" {
+							orderBad = fmt.Sprintf("receiver %d (%s) got a %s marker of sender %d after everything that sender sends before its last marker", ri+1, g.Style, mk, sid)
+							orderStyle = g.Style
+						}
+					} else {
+						last[sid] = markPos(j)
+						nextMark[sid] = j + 1
+					}
+					if perSenderRecv[sid] == nil {
+						perSenderRecv[sid] = map[int]bool{}
+					}
+					perSenderRecv[sid][ri] = true
+					continue
+				}
 				k, ok := decodeMsg(s, ch, val)
 				if !ok {
 					invented++
@@ -342,11 +398,11 @@ func judge(s *Scenario, o *Obs) *verdict {
 				}
 				received++
 				count[k]++
-				if p, ok := last[k.sid]; ok && k.seq <= p && orderBad == "" {
-					orderBad = fmt.Sprintf("receiver %d (%s) got seq %d of sender %d after seq %d", ri+1, g.Style, k.seq, k.sid, p)
+				if p, ok := last[k.sid]; ok && msgPos(k.seq) <= p && orderBad == "" {
+					orderBad = fmt.Sprintf("receiver %d (%s) got seq %d of sender %d (position %d of what it sends) after position %d", ri+1, g.Style, k.seq, k.sid, msgPos(k.seq), p)
 					orderStyle = g.Style
 				}
-				last[k.sid] = k.seq
+				last[k.sid] = msgPos(k.seq)
 				if k.sid != lastSid {
 					if seenSid[k.sid] {
 						switches = true
@@ -381,8 +437,35 @@ func judge(s *Scenario, o *Obs) *verdict {
 				}
 			}
 		}
+		for _, si := range senders {
+			sid := s.Gors[si].ID
+			if K == 0 {
+				break
+			}
+			v.Events["markers_sent"] += nMarks
+			if got := markRecv[sid]; got < nMarks {
+				lost += nMarks - got
+				if len(lostEx) < 5 {
+					lostEx = append(lostEx, fmt.Sprintf("%d of the %d bare %s markers of sender %d", nMarks-got, nMarks, markKind[sid], sid))
+				}
+			} else if got > nMarks {
+				dup += got - nMarks
+				if len(dupEx) < 5 {
+					dupEx = append(dupEx, fmt.Sprintf("%d %s markers of sender %d received, %d sent", got, markKind[sid], sid, nMarks))
+				}
+			}
+		}
 		rset := styleSet(s, receivers)
 		where := fmt.Sprintf("channel c%d (cap %d, %d senders × %d messages, receivers %s, %s, GOMAXPROCS %d)", ch, cs.Cap, len(senders), cs.N, rset, cs.Mode, s.Procs)
+		mkSuffix := ""
+		if K > 0 {
+			var ks []string
+			for _, si := range senders {
+				ks = append(ks, s.Gors[si].Mark)
+			}
+			where = fmt.Sprintf("channel c%d (cap %d, %d senders × (%d messages + a bare marker after every %d, marker kinds %v), receivers %s, %s, GOMAXPROCS %d)", ch, cs.Cap, len(senders), cs.N, K, ks, rset, cs.Mode, s.Procs)
+			mkSuffix = ":markers"
+		}
 		if invented > 0 {
 			v.add("exactly-once:invented:recv="+rset, "%s: %d received values were never sent, e.g. %s", where, invented, show(inventedEx))
 		}
@@ -404,10 +487,10 @@ func judge(s *Scenario, o *Obs) *verdict {
 				// delivered as were sent, but some deliveries carry another delivery's value
 				v.add("chan-iter-multi-receiver:lost-or-duplicated", "%s", detail)
 			} else {
-				v.add("exactly-once:"+strings.Join(kinds, "+")+":recv="+rset+":cap="+capClass(cs.Cap), "%s", detail)
+				v.add("exactly-once:"+strings.Join(kinds, "+")+":recv="+rset+":cap="+capClass(cs.Cap)+mkSuffix, "%s", detail)
 			}
 		} else if orderBad != "" {
-			v.add("order:per-sender:recv="+orderStyle, "%s: %s", where, orderBad)
+			v.add("order:per-sender:recv="+orderStyle+mkSuffix, "%s: %s", where, orderBad)
 		}
 		// the iteration key of a sole iterating receiver counts the values 0,1,2,…
 		if len(receivers) == 1 && s.Gors[receivers[0]].Style == "rangekv" {
@@ -524,6 +607,39 @@ func judge(s *Scenario, o *Obs) *verdict {
 		}
 	}
 	return v
+}
+
+// markerKind classifies a received value as one of the bare falsy markers ("" if it is none).
+func markerKind(v any) string {
+	switch x := v.(type) {
+	case nil:
+		return "nil"
+	case float64:
+		if x == 0 {
+			return "zero"
+		}
+	case int64:
+		if x == 0 {
+			return "zero"
+		}
+	case string:
+		if x == "" {
+			return "empty"
+		}
+	case bool:
+		if !x {
+			return "false"
+		}
+	case []any:
+		if len(x) == 0 {
+			return "list"
+		}
+	case map[string]any:
+		if n, ok := asInt(x["mapval"]); ok && n == 0 && len(x) == 1 {
+			return "map"
+		}
+	}
+	return ""
 }
 
 func hasSig(v *verdict, sig string) bool {
